@@ -703,3 +703,113 @@ Proof.
     + unfold abs, sp_setn. cbn [a_num a_sl]. fold (abs a). rewrite (abs_length_nat a I). unfold abs.
       apply nth_error_ext; intro k. ne_norm. ne_split; ne_leaf.
 Qed.
+
+(** ** setz: the storage is re-cut into slots of the new size *)
+Lemma chunk_length : forall S n b, length (chunk S n b) = n.
+Proof. induction n; intros; cbn; auto. Qed.
+
+Lemma chunk_ok : forall S n b, (S * n <= length b)%nat -> Forall (fun e => length e = S) (chunk S n b).
+Proof.
+  induction n as [|n IH]; intros b H; cbn [chunk]; constructor.
+  - rewrite firstn_length. lia.
+  - apply IH. rewrite skipn_length. lia.
+Qed.
+
+Lemma arr_setz_spec : forall a z, arr_inv a ->
+    let a' := arr_setz (mkArr (a_siz a) 0 (a_mem a) (a_sl a)) z in
+    arr_inv a' /\ a_siz a' = (if z =? 0 then 1 else z) /\ a_num a' = 0
+    /\ a_mem a' = a_mem a * a_siz a / a_siz a' /\ abs a' = [].
+Proof.
+  intros a z I.
+  pose proof (inv_siz a I) as Hs. pose proof (inv_num a I) as Hn. pose proof (inv_len a I) as Hl.
+  pose proof (off_lt a (a_mem a) I (N.le_refl _)) as Hb. pose proof HALF_lt_W as HW.
+  pose proof (inv_elem a I) as He.
+  unfold arr_setz. cbn [a_siz a_mem a_sl a_num].
+  set (z' := if z =? 0 then 1 else z).
+  assert (Hz : 0 < z') by (unfold z'; destruct (N.eqb_spec z 0); lia).
+  rewrite (nlen_concat (a_siz a) (a_sl a) He), Hl.
+  rewrite wmul_eq by lia.
+  replace (a_siz a * a_mem a) with (a_mem a * a_siz a) by lia.
+  cbv zeta.
+  assert (Hq : z' * (a_mem a * a_siz a / z') <= a_mem a * a_siz a) by (apply N.mul_div_le; lia).
+  set (q := a_mem a * a_siz a / z') in *. clearbody q.
+  splits; cbn [a_siz a_mem a_sl a_num]; auto.
+  constructor; cbn [a_siz a_mem a_sl a_num]; auto.
+  - lia.
+  - unfold nlen. rewrite chunk_length. lia.
+  - lia.
+  - apply chunk_ok. rewrite (concat_length_ok (N.to_nat (a_siz a))) by exact He.
+    unfold nlen in Hl. nia.
+Qed.
+
+(** ** qsort modelled by insertion sort *)
+Section Sort.
+  Variable cmp : elem -> elem -> comparison.
+
+  Lemma ins_sorted_length : forall x l, length (ins_sorted cmp x l) = S (length l).
+  Proof.
+    induction l as [|y l IH]; cbn; [reflexivity|]. destruct (gtb cmp y x); cbn; auto.
+  Qed.
+
+  Lemma isort_length : forall l, length (isort cmp l) = length l.
+  Proof. induction l as [|x l IH]; cbn; [reflexivity|]. rewrite ins_sorted_length, IH. reflexivity. Qed.
+
+  Lemma Forall_ins_sorted : forall (P : elem -> Prop) x l, P x -> Forall P l -> Forall P (ins_sorted cmp x l).
+  Proof.
+    induction l as [|y l IH]; intros Hx H; cbn; [constructor; auto|].
+    inversion H; subst. destruct (gtb cmp y x); constructor; auto.
+  Qed.
+
+  Lemma Forall_isort : forall (P : elem -> Prop) l, Forall P l -> Forall P (isort cmp l).
+  Proof.
+    induction l as [|x l IH]; intro H; cbn; [constructor|].
+    inversion H; subst. apply Forall_ins_sorted; auto.
+  Qed.
+
+  Lemma arr_sort_spec : forall a, arr_inv a ->
+      exists a', arr_sort cmp a = Ok a' /\ arr_inv a' /\ a_siz a' = a_siz a /\ a_mem a' = a_mem a
+                 /\ abs a' = isort cmp (abs a).
+  Proof.
+    intros a I.
+    pose proof (inv_num a I) as Hn. pose proof (inv_len a I) as Hl.
+    unfold arr_sort. destruct (N.leb_spec (a_num a) (nlen (a_sl a))) as [_|C]; [|lia].
+    eexists. split; [reflexivity|].
+    assert (L : length (isort cmp (abs a)) = N.to_nat (a_num a))
+      by (rewrite isort_length; apply (abs_length_nat a I)).
+    fold (abs a). destruct I. splits; cbn [a_siz a_mem a_num a_sl]; auto.
+    - constructor; cbn [a_siz a_mem a_num a_sl]; auto.
+      + unfold nlen in *. rewrite app_length, skipn_length, L. lia.
+      + rewrite Forall_app. split; [apply Forall_isort; unfold abs; apply Forall_firstn|apply Forall_skipn]; auto.
+    - unfold abs at 1. cbn [a_num a_sl]. rewrite firstn_app, L, Nat.sub_diag, firstn_O, app_nil_r.
+      rewrite <- L. apply firstn_all.
+  Qed.
+
+  Lemma arr_search_spec : forall a key, arr_inv a -> arr_search cmp a key = Ok (sp_find cmp (abs a) key).
+  Proof.
+    intros a key I. pose proof (inv_num a I) as Hn. pose proof (inv_len a I) as Hl.
+    unfold arr_search. destruct (N.leb_spec (a_num a) (nlen (a_sl a))) as [_|C]; [|lia]. reflexivity.
+  Qed.
+End Sort.
+
+(** ** the inline accessors *)
+Lemma content_at_live : forall a p, arr_inv a -> p < a_mem a ->
+    content_at a (a_siz a * p) (a_num a) = elem_at (abs a) p.
+Proof.
+  intros a p I Hp. unfold elem_at. rewrite (abs_length a I).
+  destruct (N.ltb_spec p (a_num a)) as [H|H].
+  - rewrite content_at_slot by auto. f_equal. unfold abs.
+    pose proof (inv_len a I) as Hl. unfold nlen in Hl.
+    apply nth_eq_of_ne; [lia|]. ne_norm. ne_split; ne_leaf.
+  - unfold content_at. rewrite slot_of_mul by (apply (inv_siz a I)).
+    destruct (N.ltb_spec p (a_num a)); [lia|reflexivity].
+Qed.
+
+Lemma ptr_ret_spec : forall a p, arr_inv a -> p < a_mem a ->
+    ptr_spec (a_siz a) (a_mem a) (abs a) (vec_ptr_ret a (Some (wmul (a_siz a) p)) (a_num a)) (Some p).
+Proof.
+  intros a p I Hp. cbn [ptr_spec vec_ptr_ret].
+  assert (E : wmul (a_siz a) p = a_siz a * p).
+  { apply wmul_eq. pose proof (off_lt a p I ltac:(lia)). pose proof HALF_lt_W. lia. }
+  rewrite E. exists (a_siz a * p). rewrite content_at_live by assumption.
+  unfold slot_ptr. auto.
+Qed.
